@@ -292,6 +292,9 @@ pub fn get_copied(v: &Vec<(u64, usize)>, i: usize) -> (r: Option<(u64, usize)>)
 #[verifier::external_body]
 pub fn sort_by_first(v: &mut Vec<(u64, usize)>)
     ensures final(v)@.len() == old(v)@.len(),
+        // sort_unstable_by_key(|e| e.0): ascending by start sector, same elements
+        forall|i: int, j: int| 0 <= i < j < final(v)@.len() ==> final(v)@[i].0 <= final(v)@[j].0,
+        final(v)@.to_multiset() == old(v)@.to_multiset(),
 {
     v.sort_unstable_by_key(|e| e.0)
 }
